@@ -116,7 +116,9 @@ class Ranger:
                 b = (0, 0) if v == 1 else (max(lo, 1), hi)
                 continue
             if ce == e and isinstance(v, int) and e[0] != "bin":
-                b = (v, v)          # the expression itself was switched on
+                # the expression itself was switched on: intersect with what is known (an empty interval, lo > hi, tells the
+                # caller that the decisions of this path contradict each other)
+                b = (v, v) if b is None else (max(b[0], v), min(b[1], v))
                 continue
             if not isinstance(v, int) or ce[0] != "bin":
                 continue
